@@ -36,6 +36,12 @@ impl SwiftField for Field65 {
     where
         Self: Sized,
     {
+        if !input.is_ascii() {
+            return Err(ParseError::InvalidFormat {
+                message: "Field 65 must contain only ASCII characters".to_string(),
+            });
+        }
+
         // Format: 1!a6!n3!a15d - DebitCredit + Date + Currency + Amount
         if input.len() < 10 {
             return Err(ParseError::InvalidFormat {
